@@ -22,10 +22,11 @@ LIMIT_OCTETS = 75
 
 
 class WChar:
-    """a character of symbolic UTF-8 width"""
+    """a character given by a symbolic code point; its UTF-8 width follows from the code point"""
 
-    def __init__(self, width):
+    def __init__(self, width, codepoint=None):
         self.width = width
+        self.codepoint = codepoint
 
 
 class WBytes:
@@ -85,10 +86,12 @@ def c06_loop_step(tier, seed):
                 pass
     if init.get("byte_count") != 0 or init.get("ret_chars") != []:
         raise Unsupported("foldline loop initialisation changed: %r" % (init,))
-    bc, cur, cont, w = z3.Ints("byte_count cur cont w")
+    bc, cur, cont, w, cp = z3.Ints("byte_count cur cont w cp")
     # invariant: cur = octets of the open physical line; cont = 1 on a continuation line (its added space)
     inv = lambda b, c, k: z3.And(k >= 0, k <= 1, b >= 0, b <= LIMIT_OCTETS - 1, c == b + k, c <= LIMIT_OCTETS)
-    ex.solver.add(inv(bc, cur, cont), w >= 1, w <= 4)
+    # the character: any code point except LF (asserted by foldline) and surrogates; w = its UTF-8 width
+    ex.solver.add(inv(bc, cur, cont), cp >= 0, cp <= 0x10FFFF, cp != 10, z3.Or(cp < 0xD800, cp > 0xDFFF),
+                  w == z3.If(cp < 0x80, 1, z3.If(cp < 0x800, 2, z3.If(cp < 0x10000, 3, 4))))
     # base case: the initial state satisfies the invariant
     s0 = z3.Solver()
     s0.add(z3.Not(inv(z3.IntVal(0), z3.IntVal(0), z3.IntVal(0))))
@@ -96,7 +99,7 @@ def c06_loop_step(tier, seed):
         res.cex = {"kind": "base"}
         res.what = "initial loop state violates the invariant"
         return res.finish()
-    char = WChar(w)
+    char = WChar(w, cp)
 
     def body():
         ghost = Ghost()
@@ -158,13 +161,15 @@ def replay_c06_loop_step(cex):
     if cex.get("kind") != "step":
         return True
     wch = {1: "a", 2: "é", 3: "€", 4: "😀"}
+    special = chr(cex["codepoint"]) if "codepoint" in cex else wch[cex.get("width", 1)]
     for prefix_w in (1, 2, 3, 4):
         for total in range(60, 160):
             for lastw in (1, 2, 3, 4):
                 n = total // prefix_w
-                line = wch[prefix_w] * n + "é" + wch[lastw] * 3 + wch[cex.get("width", 1)] * 3
-                if _check_real(line):
-                    return True
+                for tail in (wch[cex.get("width", 1)] * 3, special * 3, special + "a" * 80, special * 40):
+                    line = wch[prefix_w] * n + "é" + wch[lastw] * 3 + tail
+                    if _check_real(line):
+                        return True
     return False
 
 
